@@ -31,7 +31,7 @@ pub(crate) fn guarded<R>(what: &str, f: impl FnOnce() -> R) -> Option<R> {
     match catch_unwind(AssertUnwindSafe(f)) {
         Ok(r) => Some(r),
         Err(p) => {
-            if p.downcast_ref::<Inconclusive>().is_some() {
+            if p.downcast_ref::<Inconclusive>().is_some() || p.downcast_ref::<symx::engine::PathAborted>().is_some() {
                 resume_unwind(p);
             }
             fail(&format!("{}/no_panic", what), &format!("panic: {}", payload_msg(&p)));
